@@ -248,8 +248,10 @@ theorem tlvLoop_known_step (t : TagSpec) (enc : Enc) (isBer : Bool) (known : Tag
   have h1 : ¬ offset ≥ data.length := by omega
   have h2 : ¬ offset + tb.length > data.length := by omega
   have hd2 : data.drop (offset + tb.length) = pk ++ rest := drop_add_of_drop_eq hd
+  -- the tag occupies at least one byte: the "no data consumed" branch is dead
+  have h4 : ¬ (tb.length = 0 ∧ pk.length = 0) := by omega
   rw [tlvLoop]
-  simp only [h1, if_false, hd, hraw, hun, hk, Bool.not_true, Bool.false_eq_true, h2, hd2, hdisp rest]
+  simp only [h1, if_false, hd, hraw, hun, hk, Bool.not_true, Bool.false_eq_true, h2, hd2, hdisp rest, h4]
 
 /-- one iteration on a skipped unknown element -/
 theorem tlvLoop_skip_step (t : TagSpec) (enc : Enc) (isBer : Bool) (known : Tag → Bool)
